@@ -84,6 +84,19 @@ def check_one(r, lw, how, ns, dt, shift, case, base=None):
     out = verify(r, s, lw, ns, dt, case, "")
     if out is None:
         return None
+    # a selection that leaves out the heaviest row: every functional of the piece is that of the piece's own weights
+    fin_idx = [i for i, v in enumerate(lw) if math.isfinite(v)]
+    if len(lw) >= 3 and len(fin_idx) >= 3 and case.get("shift", 0.0) == 0.0:
+        try:
+            imax = max(fin_idx, key=lambda i: lw[i])
+            keep = np.array([i != imax for i in range(len(lw))])
+            xpk = get_xp(ns)
+            piece = s[xpk.asarray(keep)]
+            _ = s.scaled_weights  # the parent's own value has been asked for before
+            r.case(explorer.digest(dict(case, piece="without-heaviest")), nontrivial=True)
+            verify(r, piece, None, ns, dt, dict(case, piece="without-heaviest"), "/piece-without-heaviest-row")
+        except Exception as e:
+            r.violation(f"C02/piece-raises/{type(e).__name__}", repr(e)[:200], case)
     # non-initial state: the same object re-weighted in place (a log-density vector replaced, weights recomputed)
     if case.get("shift", 0.0) == 0.0 and how != "proposal" and all(math.isfinite(v) for v in lw):
         try:
@@ -129,7 +142,8 @@ def verify(r, s, lw, ns, dt, case, tag):
     # log evidence = log mean w  (reference evaluated on the stored log-weights)
     le_ref = ref.log_mean_exp(lws)
     le = f(s.log_evidence)
-    if not ref.close(le, le_ref, 0.0, 8 * eps * (scale + 10)):
+    piece = tag.startswith("/piece")  # a selection carries its parent's evidence (C16): only the per-set functionals are its own
+    if not piece and not ref.close(le, le_ref, 0.0, 8 * eps * (scale + 10)):
         r.violation("C02/log_evidence" + tag, {"got": le, "ref": float(le_ref)}, case)
     ess_ref = float(ref.ess(lws))
     r.outcomes.add((round(float(le_ref), 6), round(ess_ref, 6)))
@@ -153,7 +167,9 @@ def verify(r, s, lw, ns, dt, case, tag):
     lee = f(s.log_evidence_error)
     lee_ref = float(ref.rel_evidence_error(lws))
     big = "outside-exp-range" if abs(mx) > 700 or (fin.min() < -700) else "in-range"
-    if not math.isfinite(lee):
+    if piece:
+        pass
+    elif not math.isfinite(lee):
         r.violation(f"C02/log_evidence_error/not-finite/{big}" + tag, {"got": lee, "ref": lee_ref, "log_w": lws.tolist()}, case)
     elif abs(lee - lee_ref) > 64 * eps * (1 + scale) * max(1.0, lee_ref) + (1e-6 if dt == "float32" else 1e-12):
         r.violation(f"C02/log_evidence_error/inaccurate/{big}" + tag, {"got": lee, "ref": lee_ref, "log_w": lws.tolist()}, case)
